@@ -143,3 +143,12 @@ chk('C11', 'exploration',
     'rejections are checked.',
     'Containers keep class, byte order, machine and .eh_frame address; objcopy/gcc used when present (skipped otherwise).',
     'differential oracle across container re-encodings (own writer + binutils as second producer)', 'DESIGN.md section 4 C11')
+chk('C18', 'translation_validation',
+    'Output-equivalence monitor: every (file, option) pair is run through GNU readelf and through `python scripts/readelf.py` from /repo, '
+    'and the two outputs are compared with a frozen copy of the project\'s own compare_output (its documented tolerated differences). '
+    'Workloads: the regression corpus x 18 options (a seed-rotated third in quick, all in thorough), gcc/clang-compiled objects at DWARF 2-5 '
+    'for 8 targets, and one synthesized file per entry of the clone\'s description tables in the machine/OS context the entry belongs to. '
+    'Decides equality on exactly the pairs run; says nothing about options or table entries not driven.',
+    'Oracle is GNU readelf 2.40 on the image (the project pins 2.41): pairs where 2.40 is known to print an older layout are excluded and '
+    'counted; a description entry for which GNU itself prints a placeholder is unjudged and counted.',
+    'differential output monitor against GNU readelf under the project\'s tolerated-difference comparator', 'DESIGN.md section 4 C18')
